@@ -143,6 +143,8 @@ def one(ctx, data, meta=None, opts=((False, True), (False, False))):
             for path, ok in (v.get('<partok>') or {}).items():
                 ctx.count('partItemsOK holds (all hypotheses of C02_part_decidable: wrapper root, admissible children, no notes)' if ok is True
                           else 'partItemsOK false for the part')
+            for path, ok in (v.get('<notesok>') or {}).items():
+                if ok is True: ctx.count('notesPartOK holds (hypotheses of C02_notes_part: a notes part of admissible notes)')
             if v.get('<groups>'): ctx.count('groups of inline content outside paragraphs (C02_stray_group)', v['<groups>'])
     except Exception:
         pass
